@@ -206,6 +206,67 @@ func TestVerifC19(t *testing.T) {
 		}
 	}
 
+	// structured byte fields: valid artefacts of this node (push payloads of real messages, an invitation,
+	// a contact) and every structural alteration of them (fields cut, removed, extended) go into the
+	// pool; the push payloads are also presented to OutOfStoreReceive one by one in every state
+	directed := map[string][]proto.Message{}
+	for _, gpk := range [][]byte{cr.GroupPk, cfg.AccountGroupPk} {
+		for _, id := range entryIDs[string(gpk)+"/msg"] {
+			rep, err := svc.OutOfStoreSeal(ctx, &protocoltypes.OutOfStoreSeal_Request{Cid: id, GroupPublicKey: gpk})
+			if err != nil {
+				continue
+			}
+			pool.bytesets = append(pool.bytesets, rep.Encrypted)
+			directed["OutOfStoreReceive"] = append(directed["OutOfStoreReceive"], &protocoltypes.OutOfStoreReceive_Request{Payload: rep.Encrypted})
+			env := &protocoltypes.OutOfStoreMessageEnvelope{}
+			if proto.Unmarshal(rep.Encrypted, env) == nil {
+				for _, mu := range vStructMutants(env) {
+					pool.bytesets = append(pool.bytesets, mu.data)
+					if len(directed["OutOfStoreReceive"]) < 60 {
+						directed["OutOfStoreReceive"] = append(directed["OutOfStoreReceive"], &protocoltypes.OutOfStoreReceive_Request{Payload: mu.data})
+					}
+				}
+			}
+		}
+	}
+	for _, mu := range vStructMutants(sc) {
+		pool.bytesets = append(pool.bytesets, mu.data)
+		c := &protocoltypes.ShareableContact{}
+		if proto.Unmarshal(mu.data, c) == nil {
+			directed["ContactRequestSend"] = append(directed["ContactRequestSend"], &protocoltypes.ContactRequestSend_Request{Contact: c})
+			directed["DecodeContact"] = append(directed["DecodeContact"], &protocoltypes.DecodeContact_Request{EncodedContact: mu.data})
+		}
+	}
+	if inv, err := svc.MultiMemberGroupInvitationCreate(ctx, &protocoltypes.MultiMemberGroupInvitationCreate_Request{GroupPk: cr.GroupPk}); err == nil {
+		for _, mu := range vStructMutants(inv.Group) {
+			pool.bytesets = append(pool.bytesets, mu.data)
+			gm := &protocoltypes.Group{}
+			if proto.Unmarshal(mu.data, gm) == nil {
+				directed["MultiMemberGroupJoin"] = append(directed["MultiMemberGroupJoin"], &protocoltypes.MultiMemberGroupJoin_Request{Group: gm})
+			}
+		}
+	}
+
+	// invitations that ARE self-authenticating (secret signed by the group key they name) but whose
+	// secret has an unusual length: joined, then activated
+	var oddGroups [][]byte
+	for _, n := range []int{1, 31, 33, 64, 213} {
+		gsk, gpub, _ := crypto.GenerateEd25519Key(crand.Reader)
+		gpkRaw, _ := gpub.Raw()
+		secret := make([]byte, n)
+		crand.Read(secret)
+		sig, _ := gsk.Sign(secret)
+		og := &protocoltypes.Group{PublicKey: gpkRaw, Secret: secret, SecretSig: sig, GroupType: protocoltypes.GroupType_GroupTypeMultiMember}
+		directed["MultiMemberGroupJoin"] = append(directed["MultiMemberGroupJoin"], &protocoltypes.MultiMemberGroupJoin_Request{Group: og})
+		directed["ActivateGroup"] = append(directed["ActivateGroup"], &protocoltypes.ActivateGroup_Request{GroupPk: gpkRaw})
+		directed["GroupInfo"] = append(directed["GroupInfo"], &protocoltypes.GroupInfo_Request{GroupPk: gpkRaw})
+		directed["MultiMemberGroupInvitationCreate"] = append(directed["MultiMemberGroupInvitationCreate"], &protocoltypes.MultiMemberGroupInvitationCreate_Request{GroupPk: gpkRaw})
+		oddGroups = append(oddGroups, gpkRaw)
+		b, _ := proto.Marshal(og)
+		pool.bytesets = append(pool.bytesets, gpkRaw, b)
+	}
+	_ = oddGroups
+
 	// the methods of the service, from the gRPC service descriptor
 	type method struct {
 		name   string
@@ -317,10 +378,12 @@ func TestVerifC19(t *testing.T) {
 			if !m.stream {
 				reqT = m.fn.Type().In(1)
 			}
-			nreq := 3
+			nreq := 3 + len(directed[m.name])
 			for k := 0; k < nreq; k++ {
 				req := reflect.New(reqT.Elem()).Interface().(proto.Message)
-				if k > 0 {
+				if k >= 3 {
+					req = directed[m.name][k-3]
+				} else if k > 0 {
 					pool.fill(req.ProtoReflect(), 2)
 				}
 				if (m.name == "GroupMetadataList" || m.name == "GroupMessageList") && k == 2 {
